@@ -112,6 +112,54 @@ def RowRel : List SS → Row → Row → Prop
   | q :: qs, f :: fs, m :: ms => GapRel q f m ∧ RowRel qs fs ms
   | _, _, _ => False
 
+/-- union (OR) of one of the two masks of the listed member symbols in a symbol table (`none` if a member has no entry) -/
+def unionOfMembers (tab : List (Nat × Nat × Nat)) (gapsAsMissing : Bool) : List Nat → Option SS
+  | [] => some 0
+  | c :: cs =>
+    match tab.find? (fun e => e.1 == c), unionOfMembers tab gapsAsMissing cs with
+    | some (_, full, miss), some u => some ((if gapsAsMissing then miss else full) ||| u)
+    | _, _ => none
+
+/-- the fundamental symbols, in index order, denote the singletons `{0}`, `{1}`, … (index = position) with the gap as a state -/
+def fundSingletons (tab : List (Nat × Nat × Nat)) : Nat → List Nat → Bool
+  | _, [] => true
+  | i, c :: cs =>
+    (match tab.find? (fun e => e.1 == c) with
+     | some (_, full, _) => full == 1 <<< i
+     | none => false) && fundSingletons tab (i + 1) cs
+
+/-- observable result of one step of a history with matrix objects -/
+inductive MObs where
+  | call (r : Except Err (Nat × List Nat))
+  | cloned
+  | badObj
+  | matOk
+  | badMat
+
+def MRes.toObs : MRes → MObs
+  | .ok s bc => .call (.ok (s, bc))
+  | .err e => .call (.error e)
+  | .cloned => .cloned
+  | .badObj => .badObj
+  | .matOk => .matOk
+  | .badMat => .badMat
+
+/-- reference semantics of a history with matrix objects: the matrix objects evolve by `stepMats` (create / edit in place), and
+    every scoring call is made on a FRESH copy of the tree with the matrix `callMatrix` builds from the content the matrix object has
+    at that moment — i.e. a freshly built matrix with identical content -/
+def refMHist (t : T) : Nat → List MatObj → List MOp → List MObs
+  | _, _, [] => []
+  | n, mats, op :: rest =>
+    match op with
+    | .clone j => if j < n then .cloned :: refMHist t (n + 1) mats rest else .badObj :: refMHist t n mats rest
+    | .defMat _ _ | .editCell _ _ _ _ | .editSeq _ _ _ =>
+      (if (stepMats mats op).2 == some true then MObs.matOk else MObs.badMat) :: refMHist t n (stepMats mats op).1 rest
+    | .score _ _ _ | .scoreMat _ _ _ _ =>
+      match callMatrix mats op with
+      | none => .badMat :: refMHist t n mats rest
+      | some (j, m, w) =>
+        if j < n then .call (obs (parsimony m w [] t)) :: refMHist t n mats rest else .badObj :: refMHist t n mats rest
+
 namespace Aux
 
 theorem getD_replicate (v d : Nat) : ∀ (n c : Nat), c < n → (List.replicate n v).getD c d = v
@@ -614,6 +662,48 @@ theorem customSet_gapRel (gm : Bool) (fund : List Char) (amb : List (Char × Lis
         · exact fundMask_sub fund _ F h
         · cases h
 
+
+theorem rowOfBit_setCell (bit idx : Nat) (sym : Char) : ∀ (rows : List (Nat × List Char)) (b : Nat),
+    rowOfBit b (setCell bit idx sym rows) =
+      if b = bit then (rowOfBit bit rows).map (fun cs => cs.set idx sym) else rowOfBit b rows
+  | [], b => by simp [setCell, rowOfBit]
+  | (b0, cs) :: rest, b => by
+    have ih := rowOfBit_setCell bit idx sym rest b
+    by_cases h0 : (b0 == bit) = true
+    · have e0 : b0 = bit := by simpa using h0
+      subst e0
+      by_cases hb : b = b0
+      · subst hb; simp [setCell, rowOfBit]
+      · have : (b0 == b) = false := by simp; exact fun e => hb e.symm
+        simp [setCell, rowOfBit, this, hb]
+    · have h0' : (b0 == bit) = false := by simpa using h0
+      have hne : b0 ≠ bit := by simpa using h0
+      by_cases hb : b0 = b
+      · subst hb
+        simp [setCell, rowOfBit, h0', hne]
+      · have hb' : (b0 == b) = false := by simpa using hb
+        simp [setCell, rowOfBit, h0', hb', ih]
+
+theorem rowOfBit_setRow (bit : Nat) (syms : List Char) : ∀ (rows : List (Nat × List Char)) (b : Nat),
+    rowOfBit b (setRow bit syms rows) =
+      if b = bit then (rowOfBit bit rows).map (fun _ => syms) else rowOfBit b rows
+  | [], b => by simp [setRow, rowOfBit]
+  | (b0, cs) :: rest, b => by
+    have ih := rowOfBit_setRow bit syms rest b
+    by_cases h0 : (b0 == bit) = true
+    · have e0 : b0 = bit := by simpa using h0
+      subst e0
+      by_cases hb : b = b0
+      · subst hb; simp [setRow, rowOfBit]
+      · have : (b0 == b) = false := by simp; exact fun e => hb e.symm
+        simp [setRow, rowOfBit, this, hb]
+    · have h0' : (b0 == bit) = false := by simpa using h0
+      have hne : b0 ≠ bit := by simpa using h0
+      by_cases hb : b0 = b
+      · subst hb
+        simp [setRow, rowOfBit, h0', hne]
+      · have hb' : (b0 == b) = false := by simpa using hb
+        simp [setRow, rowOfBit, h0', hb', ih]
 
 end Aux
 open Aux
@@ -1362,6 +1452,157 @@ theorem unrooted_child_order_independent {m : Matrix} {n : Nat} {i i' : Nat} {x 
       fitch_sw (Sw.map _ (.same (.same wa wc) wb))
     rw [e1, e2]
 
+/-- **Ambiguity codes are state sets** (clause a, "ambiguity codes treated as state sets"; the whole regenerated table, by
+evaluation).  In every fixed alphabet the fundamental symbols denote the distinct singleton states in index order (the gap state
+last), and every multi-state symbol — every ambiguity code, the missing-data symbol, their case variants and synonyms, with the member
+lists as the source of `charstatemodel.py` writes them — denotes, in each gap mode, exactly the union of the sets its members denote in
+that mode. -/
+theorem table_members_ok : C16Alphabets.members.all (fun a =>
+    match C16Alphabets.alphabets.find? (fun t => t.1 == a.1) with
+    | none => false
+    | some (_, tab) =>
+      fundSingletons tab 0 a.2.1 &&
+      a.2.2.all (fun e =>
+        match tab.find? (fun x => x.1 == e.1), unionOfMembers tab false e.2, unionOfMembers tab true e.2 with
+        | some (_, full, miss), some uf, some um => full == uf && miss == um
+        | _, _, _ => false)) = true := by decide
+
+/-- every symbol with more than one state has a member list (so `table_members_ok` speaks about all of them), and there is a member
+table for every alphabet -/
+theorem table_members_complete : C16Alphabets.alphabets.all (fun t =>
+    match C16Alphabets.members.find? (fun a => a.1 == t.1) with
+    | none => false
+    | some (_, fund, mem) =>
+      t.2.all (fun e => fund.contains e.1 || mem.any (fun x => x.1 == e.1) ||
+        -- case variants of fundamental symbols are singletons themselves
+        fund.any (fun c => match t.2.find? (fun x => x.1 == c) with
+          | some (_, full, _) => full == e.2.1
+          | none => false))) = true := by decide
+
+/-- **An in-place cell edit changes exactly that cell** (model of `chars[taxon][idx] = state` / `set_at`): when the matrix object
+accepts the edit, the column alphabets are unchanged, the edited taxon's sequence is the old one with position `idx` replaced (same
+length), and every other taxon's sequence is untouched. -/
+theorem editCell_content (mo mo' : MatObj) (bit idx : Nat) (sym : Char) (h : mo.editCell bit idx sym = some mo') :
+    mo'.cols = mo.cols ∧
+    (∃ cs, rowOfBit bit mo.rows = some cs ∧ idx < cs.length ∧ rowOfBit bit mo'.rows = some (cs.set idx sym) ∧
+      (cs.set idx sym).length = cs.length) ∧
+    ∀ b, b ≠ bit → rowOfBit b mo'.rows = rowOfBit b mo.rows := by
+  simp only [MatObj.editCell] at h
+  cases hr : rowOfBit bit mo.rows with
+  | none => simp [hr] at h
+  | some cs =>
+    cases hc : mo.cols[idx]? with
+    | none => simp [hr, hc] at h
+    | some col =>
+      simp only [hr, hc] at h
+      split at h
+      · rename_i hcond
+        simp only [Option.some.injEq] at h
+        subst h
+        simp only [Bool.and_eq_true, decide_eq_true_eq] at hcond
+        refine ⟨rfl, ⟨cs, rfl, hcond.1, ?_, by simp⟩, ?_⟩
+        · rw [rowOfBit_setCell]; simp [hr]
+        · intro b hb
+          rw [rowOfBit_setCell]; simp [hb]
+      · cases h
+
+/-- **A sequence replacement changes exactly that sequence, keeping its length** (model of `chars[taxon] = seq`). -/
+theorem editSeq_content (mo mo' : MatObj) (bit : Nat) (syms : List Char) (h : mo.editSeq bit syms = some mo') :
+    mo'.cols = mo.cols ∧
+    (∃ cs, rowOfBit bit mo.rows = some cs ∧ cs.length = syms.length ∧ rowOfBit bit mo'.rows = some syms) ∧
+    ∀ b, b ≠ bit → rowOfBit b mo'.rows = rowOfBit b mo.rows := by
+  simp only [MatObj.editSeq] at h
+  cases hr : rowOfBit bit mo.rows with
+  | none => simp [hr] at h
+  | some cs =>
+    simp only [hr] at h
+    split at h
+    · rename_i hcond
+      simp only [Option.some.injEq] at h
+      subst h
+      simp only [Bool.and_eq_true, beq_iff_eq] at hcond
+      refine ⟨rfl, ⟨cs, rfl, hcond.1, ?_⟩, ?_⟩
+      · rw [rowOfBit_setRow]; simp [hr]
+      · intro b hb
+        rw [rowOfBit_setRow]; simp [hb]
+    · cases h
+
+/-- **History independence with matrix objects edited in place** (clause c, "a function of the tree and matrix passed in only").  In
+any history of scoring calls, clonings, creations of matrix objects and in-place edits of them, every call lets its caller observe
+exactly what the same call observes on a fresh copy of the tree with a freshly built matrix of the content the matrix object has at
+that moment (`refMHist`): nothing depends on attributes stored on the nodes, nor on what a matrix object contained or how often it was
+scored before. -/
+theorem mat_history_eq_fresh (t : T) (hid : (ids t).Nodup) : ∀ (ops : List MOp) (objs : List Attrs) (mats : List MatObj),
+    (runMHist t objs mats ops).map MRes.toObs = refMHist t objs.length mats ops
+  | [], _, _ => rfl
+  | .clone j :: rest, objs, mats => by
+    by_cases hj : j < objs.length
+    · simp only [runMHist, List.getElem?_eq_getElem hj, List.map_cons, refMHist, hj, if_true, MRes.toObs]
+      rw [mat_history_eq_fresh t hid rest (objs ++ [objs[j]]) mats]
+      simp
+    · have e1 : objs[j]? = none := List.getElem?_eq_none (by omega)
+      simp only [runMHist, e1, List.map_cons, refMHist, hj, if_false, MRes.toObs]
+      rw [mat_history_eq_fresh t hid rest objs mats]
+  | .defMat k mo :: rest, objs, mats => by
+    simp only [runMHist, refMHist, List.map_cons]
+    rw [mat_history_eq_fresh t hid rest objs _]
+    split <;> rfl
+  | .editCell k b i c :: rest, objs, mats => by
+    simp only [runMHist, refMHist, List.map_cons]
+    rw [mat_history_eq_fresh t hid rest objs _]
+    split <;> rfl
+  | .editSeq k b cs :: rest, objs, mats => by
+    simp only [runMHist, refMHist, List.map_cons]
+    rw [mat_history_eq_fresh t hid rest objs _]
+    split <;> rfl
+  | .score j m w :: rest, objs, mats => by
+    simp only [runMHist, refMHist, callMatrix]
+    by_cases hj : j < objs.length
+    · have hind := result_independent_of_attrs m w hid objs[j] []
+      simp only [List.getElem?_eq_getElem hj, hj, if_true]
+      cases hp : parsimony m w objs[j] t with
+      | error e =>
+        rw [hp] at hind
+        rw [← hind]
+        simp only [List.map_cons, MRes.toObs, obs]
+        rw [mat_history_eq_fresh t hid rest objs mats]
+      | ok st =>
+        rw [hp] at hind
+        rw [← hind]
+        simp only [List.map_cons, MRes.toObs, obs]
+        rw [mat_history_eq_fresh t hid rest (objs.set j st.attrs) mats]
+        simp
+    · have e1 : objs[j]? = none := List.getElem?_eq_none (by omega)
+      simp only [e1, List.map_cons, hj, if_false, MRes.toObs]
+      rw [mat_history_eq_fresh t hid rest objs mats]
+  | .scoreMat j k g w :: rest, objs, mats => by
+    simp only [runMHist, refMHist]
+    cases hc : callMatrix mats (.scoreMat j k g w) with
+    | none =>
+      simp only [List.map_cons, MRes.toObs]
+      rw [mat_history_eq_fresh t hid rest objs mats]
+    | some v =>
+      obtain ⟨j', m, w'⟩ := v
+      simp only
+      by_cases hj : j' < objs.length
+      · have hind := result_independent_of_attrs m w' hid objs[j'] []
+        simp only [List.getElem?_eq_getElem hj, hj, if_true]
+        cases hp : parsimony m w' objs[j'] t with
+        | error e =>
+          rw [hp] at hind
+          rw [← hind]
+          simp only [List.map_cons, MRes.toObs, obs]
+          rw [mat_history_eq_fresh t hid rest objs mats]
+        | ok st =>
+          rw [hp] at hind
+          rw [← hind]
+          simp only [List.map_cons, MRes.toObs, obs]
+          rw [mat_history_eq_fresh t hid rest (objs.set j' st.attrs) mats]
+          simp
+      · have e1 : objs[j']? = none := List.getElem?_eq_none (by omega)
+        simp only [e1, List.map_cons, hj, if_false, MRes.toObs]
+        rw [mat_history_eq_fresh t hid rest objs mats]
+
 /-! ### the hypotheses are satisfiable; the functions compute -/
 
 /-- `((t0,t1),t2)` with two characters -/
@@ -1450,5 +1691,28 @@ example : RectM [(0, [1, 8]), (1, [16, 2]), (2, [2, 8])] exCols.length :=
 example : (match parsimony [(0, [1, 8]), (1, [16, 2]), (2, [2, 8])] none [] exTree,
                  parsimony [(0, [1, 7]), (1, [15, 2]), (2, [2, 7])] none [] exTree with
     | .ok stF, .ok stM => some (stF.score, stM.score) | _, _ => none) = some (3, 1) := by decide
+
+/-- `R` = `A` ∪ `G` in the DNA table (gap as a state and gaps as missing), as `table_members_ok` states for every code -/
+example : (match C16Alphabets.alphabets.find? (fun t => t.1 == "dna") with
+    | some (_, tab) => (unionOfMembers tab false [65, 71], unionOfMembers tab true [65, 71], tab.find? (fun e => e.1 == 82))
+    | none => (none, none, none)) = (some 5, some 5, some (82, 5, 5)) := by decide
+
+/-- a matrix object scored, edited in place (one cell, then a whole sequence), and scored again — the corpus witness
+    `matrix-edited-in-place.json` through the model -/
+def exTree4 : T :=
+  .node 0 none none none [.node 1 none none none [.node 2 (some 0) none none [], .node 3 (some 1) none none []],
+                          .node 4 none none none [.node 5 (some 2) none none [], .node 6 (some 3) none none []]]
+def exMO : MatObj :=
+  { cols := List.replicate 4 (.table "dna"),
+    rows := [(0, ['A', 'A', 'A', 'A']), (1, ['A', 'A', 'A', 'A']), (2, ['A', 'A', 'A', 'A']), (3, ['A', 'A', 'A', 'A'])] }
+example : (exMO.editCell 0 1 'C').map (fun mo => mo.rows) =
+    some [(0, ['A', 'C', 'A', 'A']), (1, ['A', 'A', 'A', 'A']), (2, ['A', 'A', 'A', 'A']), (3, ['A', 'A', 'A', 'A'])] := by decide
+example : (exMO.editCell 0 7 'C').isNone = true ∧ (exMO.editCell 0 1 'Z').isNone = true ∧ (exMO.editCell 9 1 'C').isNone = true ∧
+    (exMO.editSeq 2 ['C', 'G', '-']).isNone = true := by decide
+example : (ids exTree4).Nodup := by decide
+example : (runMHist exTree4 [[]] [] [.defMat 0 exMO, .scoreMat 0 0 true none, .editCell 0 0 1 'C', .scoreMat 0 0 true none,
+      .editSeq 0 2 ['C', 'G', '-', 'T'], .clone 0, .scoreMat 1 0 false (some [1, 2, 3, 4]), .editCell 0 9 1 'C']).map
+    (fun r => match r with | .ok sc bc => some (sc, bc) | _ => none) =
+    [none, some (0, [0, 0, 0, 0]), none, some (1, [0, 1, 0, 0]), none, none, some (12, [1, 4, 3, 4]), none] := by decide
 
 end DendroModel.C16
